@@ -79,15 +79,8 @@ def target_and_circuit(cfg, rule, op_builder, symbolic=True):
 def symbolic_target(op, twires):
     """the operator's own real matrix on symbolic parameters; negative integer powers of a unitary base are taken as the
     conjugate transpose of the positive power (numpy's inv cannot run on exact scalars; unitarity of the bases is C02's lemma)"""
-    z = getattr(op, "z", None)
-    if type(op).__name__.startswith("Pow") and isinstance(z, (int, np.integer)):
-        # integer power == repeated product of the base's (exact) matrix; Pow.matrix itself is under contract in C03
-        from vf.symx.scalar import pm_dagger, pm_matmul, pm_eye
-        B = R.op_small_matrix(op.base) if list(op.base.wires) == twires else poly_matrix(qp.matrix(R.lift_float_params(op.base), wire_order=twires))
-        P = pm_eye(B.shape[0])
-        for _ in range(abs(int(z))):
-            P = pm_matmul(B, P)
-        return pm_dagger(P) if z < 0 else P
+    if type(op).__name__.startswith("Pow"):
+        return R.op_small_matrix(op)
     return poly_matrix(qp.matrix(op, wire_order=twires) if twires else qp.matrix(op))
 
 
@@ -97,6 +90,7 @@ OUT_OF_REACH = [
     ("DiagonalQubitUnitary", None, "rule/validation is data-dependent (np.allclose -> isfinite on object arrays, arctan2/angle of entries)"),
     ("Adjoint(U2)", "_adjoint_u2", "rule reduces angles with % (2*pi): piecewise in the parameter"),
     ("Adjoint(U3)", "_adjoint_u3", "rule reduces angles with % (2*pi): piecewise in the parameter"),
+    ("", "to_controlled_unitary", "rule hands the base's matrix to ControlledQubitUnitary, whose constructor validates dtype complex128"),
 ]
 
 
